@@ -43,7 +43,7 @@ type dataset struct {
 type dsShape struct {
 	Files   int    // 1, 2, 3; 3 = third argument repeats the first path
 	Labeled bool   // second file given as label=path
-	Blocks  string // "a", "ab" (goos a then goos b), "notes" (goos a note x, goos a note y)
+	Blocks  string // "a", "ab" (goos a then goos b), "notes" (goos a note x, goos a note y), "note-dropped" / "note-late" / "two-dropped" (keys present in some blocks and absent in others)
 	Benches int    // 1..3 of A, B/k=1, B/k=2-4
 	Units   string // "ns", "ns+B", "ns+x" (x/op with assume=exact), "ns+alt" (second unit alternates between lines), "ns|sec" / "sec|ns" (one file writes ns/op, the other sec/op), "ns+Bnew" (the first benchmark reports B/op in the second file only)
 	Reps    int
@@ -83,6 +83,13 @@ func (s dsShape) build() dataset {
 			cfgs = [][][2]string{{{"goos", "a"}}, {{"goos", "b"}}}
 		case "notes":
 			cfgs = [][][2]string{{{"goos", "a"}, {"note", "x"}}, {{"goos", "a"}, {"note", "y"}}}
+		case "note-dropped":
+			// a key present on the first results and absent (deleted by an empty-valued line) later
+			cfgs = [][][2]string{{{"goos", "a"}, {"note", "x"}}, {{"goos", "a"}}}
+		case "note-late":
+			cfgs = [][][2]string{{{"goos", "a"}}, {{"goos", "a"}, {"note", "y"}}}
+		case "two-dropped":
+			cfgs = [][][2]string{{{"goos", "a"}, {"note", "x"}, {"tag", "t"}}, {{"goos", "a"}}, {{"goos", "a"}, {"tag", "t"}}}
 		case "collide":
 			cfgs = [][][2]string{{{"goos", "ab"}, {"note", "c"}}, {{"goos", "a"}, {"note", "bc"}}}
 		}
@@ -405,6 +412,10 @@ func c14Shapes(thorough bool) []dsShape {
 		{Files: 2, Blocks: "ab", Benches: 2, Units: "sec|ns", Reps: 2, Pattern: "shifted"},
 		{Files: 2, Blocks: "a", Benches: 2, Units: "ns+Bnew", Reps: 5, Pattern: "shifted"},
 		{Files: 2, Blocks: "ab", Benches: 3, Units: "ns+Bnew", Reps: 2, Pattern: "shifted"},
+		{Files: 2, Blocks: "note-dropped", Benches: 2, Units: "ns", Reps: 2, Pattern: "shifted"},
+		{Files: 1, Blocks: "note-late", Benches: 2, Units: "ns+B", Reps: 2, Pattern: "shifted"},
+		{Files: 2, Blocks: "two-dropped", Benches: 1, Units: "ns", Reps: 5, Pattern: "shifted"},
+		{Files: 3, Labeled: true, Blocks: "note-dropped", Benches: 3, Units: "ns+x", Reps: 1, Pattern: "equal", Missing: true},
 	}
 	var all []dsShape
 	for _, files := range []int{1, 2, 3} {
@@ -412,7 +423,7 @@ func c14Shapes(thorough bool) []dsShape {
 			if labeled && files == 1 {
 				continue
 			}
-			for _, blocks := range []string{"a", "ab", "notes"} {
+			for _, blocks := range []string{"a", "ab", "notes", "note-dropped", "note-late", "two-dropped"} {
 				for _, benches := range []int{1, 3} {
 					for _, units := range []string{"ns", "ns+B", "ns+x"} {
 						for _, reps := range []int{1, 5} {
@@ -633,6 +644,12 @@ func parseWarnings(errOut []byte) map[string][]string {
 	return out
 }
 
+// cellRef is the spreadsheet label of the cell in the 0-based column col of
+// the 1-based line: A…Z, AA, AB, … (bijective base 26).
 func cellRef(line, col int) string {
-	return fmt.Sprintf("%c%d", 'A'+col, line)
+	name := ""
+	for n := col + 1; n > 0; n = (n - 1) / 26 {
+		name = string(rune('A'+(n-1)%26)) + name
+	}
+	return fmt.Sprintf("%s%d", name, line)
 }
